@@ -458,3 +458,31 @@ Proof.
            (555, [RField 600 15 true []; RField 604 1 false []]).
     split; [vm_compute; tauto|]. split; [vm_compute; tauto|]. split; [reflexivity | discriminate].
 Qed.
+
+(* ================================================================== the hash recurses into nested groups *)
+(* what a nested group contributes to its parent's hash is the structural hash of its own body
+   (group_hash(pp.second)), not its count field number *)
+Lemma item_hash_group_lemma : forall n r c sub, item_hash (RGroup n r c sub) = [([n], group_hash sub)].
+Proof. reflexivity. Qed.
+
+(* NoAllocs{79, 80, NoMiscFees{137, 138}} and NoAllocs{79, 80, NoMiscFees{137, 139}}: same direct members,
+   different nested members.  The pinned f8c prints "hash: 0x7a05739b" and "hash: 0x7a05739a" for them;
+   the model computes the same two values, so the definitions are kept apart and (c14_sound_if_no_clash)
+   each message gets the nested classes of its own definition. *)
+Definition nhA : list ritem :=
+  [RField 79 15 false []; RField 80 1 false []; RGroup 136 false [] [RField 137 15 false []; RField 138 15 false []]].
+Definition nhB : list ritem :=
+  [RField 79 15 false []; RField 80 1 false []; RGroup 136 false [] [RField 137 15 false []; RField 139 15 false []]].
+Definition nhMsgA : list ritem := [RField 70 15 true []; RGroup 78 false [] nhA].
+Definition nhMsgB : list ritem := [RField 70 15 true []; RGroup 78 false [] nhB].
+
+Lemma hash_covers_nested_lemma :
+  level_nums nhA = level_nums nhB
+  /\ group_hash nhA = 2047177627 /\ group_hash nhB = 2047177626
+  /\ msg_clash (level_defs nhMsgA ++ level_defs nhMsgB) nhMsgB = false
+  /\ f8c_node FUEL (build_gm (level_defs nhMsgA ++ level_defs nhMsgB)) nhMsgB = Some (own_node nhMsgB)
+  /\ own_node nhMsgB <> own_node nhMsgA.
+Proof.
+  split; [vm_compute; reflexivity|]. split; [vm_compute; reflexivity|]. split; [vm_compute; reflexivity|].
+  split; [vm_compute; reflexivity|]. split; [vm_compute; reflexivity | vm_compute; discriminate].
+Qed.
